@@ -74,7 +74,11 @@ def nudge (c : Ctx) : Ctx :=
   | _ => c
 
 def joinNames (aName bName : Bytes) (aNames bNames : List Bytes) : List Bytes :=
-  (if aName != bName then [aName, bName] else []) ++ bNames.filter (fun n => !aNames.contains n)
+  -- all names recorded for `a` are kept; then the two current names if they differ; then b's names; no duplicates
+  let add (acc : List Bytes) (n : Bytes) : List Bytes := if acc.contains n then acc else acc ++ [n]
+  let r0 := aNames.foldl add []
+  let r1 := if aName != bName then add (add r0 aName) bName else r0
+  bNames.foldl add r1
 
 /-- `join`; the recursion through `nudge` happens at most once -/
 def joinCore (a b : Ctx) (allowNudge : Bool) : Ctx :=
